@@ -250,6 +250,14 @@ int main(int argc, char **argv)
         for(int b = 0; b < NL; ++b) if(b != a) { d1.push_back(level({L[a], L[b]}, {})); d1id.push_back("d1|" + std::to_string(a) + "." + std::to_string(b));
             for(int c = 0; c < NL; ++c) if(c != a && c != b) { d1.push_back(level({L[a], L[b], L[c]}, {})); d1id.push_back("d1|" + std::to_string(a) + "." + std::to_string(b) + "." + std::to_string(c)); } } }
     for(size_t i = 0; i < d1.size(); ++i, ++top) if(vp::mine(top)) run_tree(clone(d1[i]), d1id[i]);
+    // thorough: every ordered list of 4 distinct leaf shapes, and every ordered list of 3 shapes (leaf or sub-tree) with each sub-tree holding
+    // each representative child
+    if(T) {
+        for(int a = 0; a < NL; ++a) for(int b = 0; b < NL; ++b) for(int c = 0; c < NL; ++c) for(int d = 0; d < NL; ++d, ++top) {
+            if(a == b || a == c || a == d || b == c || b == d || c == d || !vp::mine(top)) continue;
+            run_tree(level({L[a], L[b], L[c], L[d]}, {}), "d1x4|" + std::to_string(a) + "." + std::to_string(b) + "." + std::to_string(c) + "." + std::to_string(d));
+        }
+    }
     // representatives used as children
     std::vector<std::shared_ptr<Node>> reps = {level({"x"}, {}), level({"y:i", "v#2"}, {}), level({"a#2/b"}, {}), level({"w#3::i", "x", "z::i"}, {}), level({"d#2/e#2"}, {}), level({"x", "v#2", "g#2/h:i"}, {})};
     // depth 2: every ordered list of 1..2 shapes with at least one sub-tree; each sub-tree x each representative child
@@ -265,6 +273,17 @@ int main(int argc, char **argv)
             std::vector<std::shared_ptr<Node>> ch = {clone(reps[c % reps.size()])}; if(nsub == 2) ch.push_back(clone(reps[c / reps.size()]));
             run_tree(level(names, ch), "d2|" + std::to_string(a) + "." + std::to_string(b) + "|c" + std::to_string(c));
             ++n2;
+        }
+    }
+    if(T) {
+        // three shapes with at least one sub-tree; all sub-trees of one table share the representative child (6 choices)
+        for(size_t a = 0; a < ALL.size(); ++a) for(size_t b = 0; b < ALL.size(); ++b) for(size_t c = 0; c < ALL.size(); ++c) for(size_t r = 0; r < reps.size(); ++r, ++top) {
+            if(a == b || a == c || b == c || !vp::mine(top)) continue;
+            std::vector<std::string> names = {ALL[a], ALL[b], ALL[c]};
+            int nsub = 0; for(auto &n : names) if(is_sub(n)) ++nsub;
+            if(!nsub) continue;
+            std::vector<std::shared_ptr<Node>> ch; for(int k = 0; k < nsub; ++k) ch.push_back(clone(reps[(r + k) % reps.size()]));
+            run_tree(level(names, ch), "d2x3|" + std::to_string(a) + "." + std::to_string(b) + "." + std::to_string(c) + "|r" + std::to_string(r));
         }
     }
     // depth 3 (thorough: 4): chains of sub-trees with a sibling leaf on each level
